@@ -38,6 +38,7 @@ type ldAsset struct {
 	Price  uint64 `json:"price"`
 	Ltv    string `json:"ltv"`
 	Stable bool   `json:"stable_borrow"`
+	ELtv   string `json:"e_ltv,omitempty"` // loan-to-value of this collateral on e-mode pairs (threshold: + 0.04)
 	ID     uint64 `json:"-"`
 	CID    uint64 `json:"-"`
 }
@@ -49,6 +50,7 @@ type ldCfg struct {
 	Fund   string    `json:"pool_funding"`
 	Res    string    `json:"reserve_funding"`
 	Liq    *ldLiq    `json:"liquidation,omitempty"`
+	EPairs []int     `json:"e_mode_pairs,omitempty"` // indices into the pair list (18 pairs, in creation order)
 }
 
 // ldLiq switches second-generation liquidation of borrows on for the lend app.
@@ -71,6 +73,8 @@ type ldOp struct {
 	Stable bool   `json:"stable,omitempty"`
 	Dt     int64  `json:"dt,omitempty"`
 	Price  uint64 `json:"price,omitempty"`
+	Debt   int    `json:"debt,omitempty"` // limit bids: index of the debt asset (Asset is the collateral)
+	Prem   int    `json:"prem,omitempty"` // limit bids: premium discount in percent
 }
 
 type ldCase struct {
@@ -79,16 +83,17 @@ type ldCase struct {
 }
 
 type ldMachine struct {
-	t     rec.TB
-	r     *rec.Rec
-	prop  string
-	c     *world.Chain
-	cs    *ldCase
-	k     lendkeeper.Keeper
-	app   uint64
-	pools [2]uint64
-	pairs []lendtypes.Extended_Pair
-	ok    map[string]int
+	forced []ldOp // operations to generate next, queued by the generator itself
+	t      rec.TB
+	r      *rec.Rec
+	prop   string
+	c      *world.Chain
+	cs     *ldCase
+	k      lendkeeper.Keeper
+	app    uint64
+	pools  [2]uint64
+	pairs  []lendtypes.Extended_Pair
+	ok     map[string]int
 	// statistics
 	nInter, nStable, nAccrued, nRewarded, nLtvEdge int
 	// liquidation
@@ -119,7 +124,33 @@ func genLdCfg(rt *rapid.T) ldCfg {
 			Stable: rapid.Bool().Draw(rt, fmt.Sprintf("stable%d", i)),
 		})
 	}
+	if rapid.Bool().Draw(rt, "emode") {
+		// governance switched e-mode on for some pairs: their collateral asset's e-mode ratios apply instead
+		for i := range cfg.Assets {
+			cfg.Assets[i].ELtv = rapid.SampledFrom([]string{"0.85", "0.9", "0.75"}).Draw(rt, fmt.Sprintf("eltv%d", i))
+		}
+		for j := 0; j < 18; j++ {
+			if rapid.IntRange(0, 2).Draw(rt, fmt.Sprintf("epair%d", j)) == 0 {
+				cfg.EPairs = append(cfg.EPairs, j)
+			}
+		}
+	}
 	return cfg
+}
+
+// ldEThr is the distance between the e-mode loan-to-value and the e-mode liquidation threshold.
+const ldEThr = "0.04"
+
+// collLtv returns the loan-to-value and liquidation threshold of the pair's collateral asset: the e-mode ones on an e-mode pair.
+func (m *ldMachine) collLtv(pair lendtypes.Extended_Pair) (ltv, thr *big.Rat) {
+	a := m.cs.Cfg.Assets[m.assetIdx(pair.AssetIn)]
+	if pair.IsEModeEnabled && a.ELtv != "" {
+		ltv, _ = new(big.Rat).SetString(a.ELtv)
+		d, _ := new(big.Rat).SetString(ldEThr)
+		return ltv, new(big.Rat).Add(ltv, d)
+	}
+	ltv, _ = new(big.Rat).SetString(a.Ltv)
+	return ltv, new(big.Rat).Add(ltv, big.NewRat(5, 100))
 }
 
 func newLdMachine(t rec.TB, r *rec.Rec, prop string, cs *ldCase) *ldMachine {
@@ -197,6 +228,18 @@ func newLdMachine(t rec.TB, r *rec.Rec, prop string, cs *ldCase) *ldMachine {
 		}
 	}
 	m.pairs = m.k.GetLendPairs(c.Ctx)
+	if len(cfg.EPairs) > 0 {
+		var ep lendtypes.EModePairsForProposal
+		for _, j := range cfg.EPairs {
+			if j >= len(m.pairs) {
+				continue
+			}
+			e := dec(cfg.Assets[m.assetIdx(m.pairs[j].AssetIn)].ELtv)
+			ep.EModePairs = append(ep.EModePairs, lendtypes.EModePairs{PairID: m.pairs[j].Id, ELtv: e, ELiquidationThreshold: e.Add(dec(ldEThr)), ELiquidationPenalty: dec("0.02")})
+		}
+		must(m.k.AddEModePairs(c.Ctx, ep))
+		m.pairs = m.k.GetLendPairs(c.Ctx)
+	}
 	m.app = c.AddApp(lendtypes.AppName)
 	c.AddApp("cswap")
 	for _, u := range c.Accs {
@@ -270,6 +313,12 @@ func (m *ldMachine) pairByID(id uint64) lendtypes.Extended_Pair {
 
 func (m *ldMachine) genOp(rt *rapid.T, i int) ldOp {
 	c, cfg := m.c, &m.cs.Cfg
+	if len(m.forced) > 0 {
+		// the follow-up an earlier generated operation asked for
+		op := m.forced[0]
+		m.forced = m.forced[1:]
+		return op
+	}
 	lbl := func(s string) string { return fmt.Sprintf("%s_%d", s, i) }
 	lends := m.k.GetAllLend(c.Ctx)
 	borrows := m.k.GetAllBorrow(c.Ctx)
@@ -318,8 +367,19 @@ func (m *ldMachine) genOp(rt *rapid.T, i int) ldOp {
 		if m.prop == "C10" {
 			kinds = append(kinds, "bid", "bid", "bid", "bid", "bid", "crash", "liqmsg")
 		}
+		// limit bids, executed automatically by the auction hook when an auction posts their discount
+		kinds = append(kinds, "lbdep")
+		if len(c.App.NewaucKeeper.GetAuctions(c.Ctx)) > 0 {
+			kinds = append(kinds, "lbdep", "lbdep", "lbdep", "block", "block")
+		}
+		if len(m.limitBids()) > 0 {
+			kinds = append(kinds, "lbcancel")
+		}
 	}
 	k := rapid.SampledFrom(kinds).Draw(rt, lbl("kind"))
+	if cfg.Liq != nil && len(c.App.NewaucKeeper.GetAuctions(c.Ctx)) > 0 && rapid.IntRange(0, 4).Draw(rt, lbl("limitnow")) == 0 {
+		k = "lbdep"
+	}
 	op := ldOp{K: k}
 	switch k {
 	case "crash":
@@ -351,6 +411,56 @@ func (m *ldMachine) genOp(rt *rapid.T, i int) ldOp {
 		op.U = rapid.IntRange(0, cfg.NUsers-1).Draw(rt, lbl("user"))
 		op.ID = borrows[rapid.IntRange(0, len(borrows)-1).Draw(rt, lbl("borrow"))].ID
 		return op
+	case "lbdep":
+		op.U = rapid.IntRange(0, cfg.NUsers-1).Draw(rt, lbl("user"))
+		as := c.App.NewaucKeeper.GetAuctions(c.Ctx)
+		if len(as) > 0 && rapid.IntRange(0, 3).Draw(rt, lbl("rel")) > 0 {
+			// relative to a live auction: its asset pair, the discount it posts now or shortly, its remaining debt
+			a := as[rapid.IntRange(0, len(as)-1).Draw(rt, lbl("auction"))]
+			op.Asset, op.Debt = m.assetIdx(a.CollateralAssetId), m.assetIdx(a.DebtAssetId)
+			cur := int64(0)
+			if a.CollateralTokenOraclePrice.IsPositive() && a.CollateralTokenOraclePrice.GT(a.CollateralTokenAuctionPrice) {
+				cur = a.CollateralTokenOraclePrice.Sub(a.CollateralTokenAuctionPrice).Quo(a.CollateralTokenOraclePrice).MulInt64(100).TruncateInt64()
+			}
+			cur += int64(rapid.IntRange(0, 3).Draw(rt, lbl("relprem")))
+			if cur > 30 {
+				cur = 30
+			}
+			op.Prem = int(cur)
+			d := int64(cfg.Liq.Duration)
+			dt := rapid.SampledFrom([]int64{0, 5, 6, d / 10, d / 5, d / 3, d / 2, d * 4 / 5}).Draw(rt, lbl("reldt"))
+			if tw, ok := c.App.MarketKeeper.GetTwa(c.Ctx, a.CollateralAssetId); ok && dt > 0 {
+				if pm, ok := premiumAfter(a, c.Ctx.BlockTime(), dt, tw.Twa, cfg.Liq.Duration, sdk.MustNewDecFromStr(cfg.Liq.Discount)); ok {
+					op.Prem = int(pm)
+					m.forced = append(m.forced, ldOp{K: "block", Dt: dt})
+				}
+			}
+			switch rapid.IntRange(0, 3).Draw(rt, lbl("amtk")) {
+			case 0:
+				op.A = clampPos(a.DebtToken.Amount.AddRaw(rapid.Int64Range(-1, 1).Draw(rt, lbl("d")))).String()
+			case 1:
+				op.A = clampPos(a.DebtToken.Amount.QuoRaw(rapid.Int64Range(2, 5).Draw(rt, lbl("div")))).String()
+			case 2:
+				op.A = a.DebtToken.Amount.MulRaw(3).String()
+			default:
+				op.A = rapid.SampledFrom([]string{"10", "1000000", "250000000"}).Draw(rt, lbl("amt"))
+			}
+			return op
+		}
+		op.Asset = rapid.IntRange(0, 3).Draw(rt, lbl("asset"))
+		op.Debt = rapid.IntRange(0, 3).Draw(rt, lbl("debt"))
+		op.Prem = rapid.SampledFrom([]int{0, 1, 2, 5, 10, 30}).Draw(rt, lbl("prem"))
+		op.A = rapid.SampledFrom([]string{"10", "1000000", "250000000", "40000000000"}).Draw(rt, lbl("amt"))
+		return op
+	case "lbcancel":
+		lbs := m.limitBids()
+		if len(lbs) == 0 {
+			return ldOp{K: "block", Dt: 6}
+		}
+		lb := lbs[rapid.IntRange(0, len(lbs)-1).Draw(rt, lbl("limitbid"))]
+		op.U = m.userIdx(lb.BidderAddress)
+		op.Asset, op.Debt, op.Prem = m.assetIdx(lb.CollateralTokenId), m.assetIdx(lb.DebtTokenId), int(lb.PremiumDiscount.Int64())
+		return op
 	case "bid":
 		as := c.App.NewaucKeeper.GetAuctions(c.Ctx)
 		if len(as) == 0 {
@@ -374,6 +484,11 @@ func (m *ldMachine) genOp(rt *rapid.T, i int) ldOp {
 	switch k {
 	case "block":
 		op.Dt = rapid.SampledFrom([]int64{5, 6, 3600, 86400, 30 * 86400, 365 * 86400}).Draw(rt, lbl("dt"))
+		if cfg.Liq != nil && len(c.App.NewaucKeeper.GetAuctions(c.Ctx)) > 0 && rapid.Bool().Draw(rt, lbl("withinauction")) {
+			// inside the running auctions' price curve instead of beyond their end
+			d := int64(cfg.Liq.Duration)
+			op.Dt = rapid.SampledFrom([]int64{5, d / 10, d / 5, d / 3, d / 2, d * 4 / 5, d, d + 1}).Draw(rt, lbl("dtrel"))
+		}
 		return op
 	case "price":
 		op.Asset = rapid.IntRange(0, 3).Draw(rt, lbl("asset"))
@@ -414,6 +529,9 @@ func (m *ldMachine) genOp(rt *rapid.T, i int) ldOp {
 		pin, _ := c.App.MarketKeeper.GetTwa(c.Ctx, cfg.Assets[in].ID)
 		pout, _ := c.App.MarketKeeper.GetTwa(c.Ctx, cfg.Assets[out].ID)
 		ltv := sdk.MustNewDecFromStr(cfg.Assets[in].Ltv)
+		if pair.IsEModeEnabled && cfg.Assets[in].ELtv != "" {
+			ltv = sdk.MustNewDecFromStr(cfg.Assets[in].ELtv)
+		}
 		if pair.IsInterPool {
 			ltv = ltv.Mul(sdk.MustNewDecFromStr(cfg.Assets[2].Ltv)) // first transit asset is asset3 in both pools
 		}
@@ -598,6 +716,10 @@ func (m *ldMachine) buildMsg(op ldOp) (sdk.Msg, bool) {
 			return nil, false
 		}
 		msg = auctypes.NewMsgPlaceMarketBid(from, op.ID, sdk.NewCoin(a.DebtToken.Denom, amt))
+	case "lbdep":
+		msg = auctypes.NewMsgDepositLimitBid(from, cfg.Assets[op.Asset].ID, cfg.Assets[op.Debt].ID, sdk.NewInt(int64(op.Prem)), sdk.NewCoin(ldDenom(op.Debt), amt))
+	case "lbcancel":
+		msg = auctypes.NewMsgCancelLimitBid(from, cfg.Assets[op.Asset].ID, cfg.Assets[op.Debt].ID, sdk.NewInt(int64(op.Prem)))
 	default:
 		panic("unknown lend op " + op.K)
 	}
@@ -612,12 +734,42 @@ func (m *ldMachine) apply(i int, op ldOp) {
 		if cfg.Liq != nil {
 			pre = m.liqSnap()
 		}
+		limitPre := sdk.ZeroInt()
+		if pre != nil && debugErrs {
+			for _, a := range c.App.NewaucKeeper.GetAuctions(c.Ctx) {
+				if a.CollateralTokenOraclePrice.GT(a.CollateralTokenAuctionPrice) {
+					prem := a.CollateralTokenOraclePrice.Sub(a.CollateralTokenAuctionPrice).Quo(a.CollateralTokenOraclePrice).MulInt64(100).TruncateInt()
+					if _, ok := c.App.NewaucKeeper.GetUserLimitBidDataByPremium(c.Ctx, a.DebtAssetId, a.CollateralAssetId, prem); ok {
+						m.r.Class("dbg:autobid-eligible-before-block")
+					} else {
+						m.r.Class("dbg:auction-below-oracle-no-bid-at-premium")
+					}
+				} else {
+					m.r.Class("dbg:auction-above-oracle")
+				}
+			}
+		}
+		if pre != nil {
+			for _, lb := range m.limitBids() {
+				limitPre = limitPre.Add(lb.DebtToken.Amount)
+			}
+		}
 		if err := c.NextBlockRecover(time.Duration(op.Dt) * time.Second); err != nil {
 			m.fail(m.prop+".block-hook-panic", "block", "step %d: %v", i, err)
 		}
 		m.ok["block"]++
 		if pre != nil {
 			m.liqObserveLend(i, op, pre, true)
+			limitPost := sdk.ZeroInt()
+			for _, lb := range m.limitBids() {
+				limitPost = limitPost.Add(lb.DebtToken.Amount)
+			}
+			if limitPost.LT(limitPre) {
+				m.r.Class("autobid:deposits-reduced-in-block")
+				if len(c.App.NewaucKeeper.GetAuctions(c.Ctx)) < pre.aucs {
+					m.r.Class("autobid:block-also-closes-auction")
+				}
+			}
 		}
 		m.invariants(i, op)
 		return
@@ -716,10 +868,11 @@ func (m *ldMachine) apply(i int, op ldOp) {
 func (m *ldMachine) thresholdOf(b lendtypes.BorrowAsset) (*big.Rat, string) {
 	cfg := &m.cs.Cfg
 	pair := m.pairByID(b.PairID)
-	in := m.assetIdx(pair.AssetIn)
-	thr, _ := new(big.Rat).SetString(cfg.Assets[in].Ltv)
-	thr.Add(thr, big.NewRat(5, 100))
+	_, thr := m.collLtv(pair)
 	kind := "same-pool"
+	if pair.IsEModeEnabled {
+		kind = "e-mode,same-pool"
+	}
 	if b.BridgedAssetAmount.Amount.IsPositive() {
 		kind = "cross-pool"
 		for i := range cfg.Assets {
@@ -892,9 +1045,11 @@ func (m *ldMachine) liqObserveLend(i int, op ldOp, pre *ldLiqSnap, sweep bool) {
 func (m *ldMachine) ltvOf(b lendtypes.BorrowAsset) (*big.Rat, string) {
 	cfg := &m.cs.Cfg
 	pair := m.pairByID(b.PairID)
-	in := m.assetIdx(pair.AssetIn)
-	ltv, _ := new(big.Rat).SetString(cfg.Assets[in].Ltv)
+	ltv, _ := m.collLtv(pair)
 	kind := "same-pool"
+	if pair.IsEModeEnabled {
+		kind = "e-mode,same-pool"
+	}
 	if pair.IsInterPool {
 		kind = "cross-pool"
 		// bridged through a transit asset: its loan-to-value applies on top
@@ -940,7 +1095,7 @@ func (m *ldMachine) checkLtv(i int, op ldOp, b lendtypes.BorrowAsset) {
 				limit = bv
 			}
 		}
-		il, _ := new(big.Rat).SetString(cfg.Assets[in].Ltv)
+		il, _ := m.collLtv(pair)
 		if first := new(big.Rat).Mul(collV, il); first.Cmp(limit) < 0 {
 			limit = first
 		}
@@ -1069,12 +1224,31 @@ func (m *ldMachine) auctionCustodyLend(i int, op ldOp) {
 		}
 		want[a.DebtToken.Denom] = want[a.DebtToken.Denom].Add(paid)
 	}
+	// limit-bid deposits wait in the same account (the fees on leaving are zero in this world)
+	for _, lb := range m.limitBids() {
+		want[lb.DebtToken.Denom] = want[lb.DebtToken.Denom].Add(lb.DebtToken.Amount)
+	}
 	for ai := range m.cs.Cfg.Assets {
 		d := ldDenom(ai)
 		if have := c.ModBal(auctypes.ModuleName, d); !have.Equal(want[d]) {
 			m.fail("C10.auction-custody-fully-accounted", "lend,after:"+op.K, "step %d: auction custody holds %s%s; the %d live auctions account for %s (unsold collateral + debt paid in by partial bids)", i, have, d, live, want[d])
 		}
 	}
+}
+
+// limitBids lists every limit-bid record of the world's asset pairs, in a fixed order.
+func (m *ldMachine) limitBids() []auctypes.LimitOrderBid {
+	var out []auctypes.LimitOrderBid
+	for _, d := range m.cs.Cfg.Assets {
+		for _, cl := range m.cs.Cfg.Assets {
+			for prem := int64(0); prem <= 30; prem++ {
+				if bids, ok := m.c.App.NewaucKeeper.GetUserLimitBidDataByPremium(m.c.Ctx, d.ID, cl.ID, sdk.NewInt(prem)); ok {
+					out = append(out, bids...)
+				}
+			}
+		}
+	}
+	return out
 }
 
 func (m *ldMachine) finish() {
@@ -1137,7 +1311,7 @@ func init() {
 
 func genLdLiq(rt *rapid.T) *ldLiq {
 	return &ldLiq{Batch: uint64(rapid.SampledFrom([]int{1, 2, 3, 5, 200}).Draw(rt, "liqbatch")), Duration: uint64(rapid.SampledFrom([]int{60, 600, 7200}).Draw(rt, "aucdur")),
-		Premium: rapid.SampledFrom([]string{"1.1", "1.2"}).Draw(rt, "premium"), Discount: rapid.SampledFrom([]string{"0.7", "0.9"}).Draw(rt, "discount")}
+		Premium: rapid.SampledFrom([]string{"1.1", "1.2", "1"}).Draw(rt, "premium"), Discount: rapid.SampledFrom([]string{"0.7", "0.9"}).Draw(rt, "discount")}
 }
 
 func TestC09_borrows(t *testing.T) {
